@@ -125,3 +125,69 @@ pub fn h_glue() {
     };
     sym::check("C01/best", dubious | sv.has_letter | sw.has_letter | okb);
 }
+
+/// Grammar-directed versions (reaches `1.0alpha1nb17`-sized strings): up to 4 (quick) / 6
+/// (thorough) tokens, each a digit run with symbolic digits, a separator, a modifier in a symbolic
+/// upper/lower-case spelling, `nb` + digits, one symbolic letter, one other ASCII byte, or one
+/// multi-byte character.
+pub fn h_token_strings() {
+    let n = sym::choose("ntok", sym::bound(4, 5) + 1);
+    let mut s = String::new();
+    let mut i = 0;
+    while i < n {
+        match sym::choose("tok", 9) {
+            0 => {
+                // digit run: 1..3 symbolic digits, or an 18-digit run (the property's limit)
+                if sym::choose("long", 2) == 1 {
+                    s.push_str("12345678901234567");
+                }
+                s.push_str(&sym::any_str("d", "hex:30-39", 1, 2));
+            }
+            1 => s.push('.'),
+            2 => s.push('_'),
+            3 => {
+                // a modifier word, each letter in symbolic case
+                let w: &[u8] = match sym::choose("mod", 5) {
+                    0 => b"alpha",
+                    1 => b"beta",
+                    2 => b"rc",
+                    3 => b"pre",
+                    _ => b"pl",
+                };
+                let upper = sym::any_u8("case");
+                let mut k = 0;
+                while k < w.len() {
+                    // bit k of `upper` selects the case of letter k (no fork: arithmetic on the byte)
+                    let bit = (upper >> k) & 1;
+                    s.push((w[k] - 32 * bit) as char);
+                    k += 1;
+                }
+            }
+            4 => {
+                s.push_str("nb");
+                s.push_str(&sym::any_str("r", "hex:30-39", 0, 2));
+            }
+            5 => s.push_str(&sym::any_str("l", "hex:41-5a,61-7a", 1, 1)),
+            6 => s.push_str(&sym::any_str("o", "hex:21-2d,2f,3a-40,5b-5e,60,7b-7e", 1, 1)),
+            7 => s.push_str(&sym::any_str("u", "utf8", 1, 1)),
+            _ => s.push_str("0"),
+        }
+        i += 1;
+    }
+    let got = DeweyVersion::new(&s);
+    let (gv, gr) = verif_in::parts(&got);
+    sym::observe_usize("ncomps", gv.len());
+    sym::observe_i64("rev", gr);
+    let want = spec::tokenise(s.as_bytes(), false);
+    let same = spec::vec_eq(gv, &want.comps) & (gr == want.rev);
+    sym::cover("long-version", gv.len() >= 4);
+    sym::cover("has-revision", gr > 0);
+    if want.has_letter && sym::kf_listed("letter-weight") {
+        let dev = spec::tokenise(s.as_bytes(), true);
+        let same_dev = spec::vec_eq(gv, &dev.comps) & (gr == dev.rev);
+        sym::known_finding("letter-weight", !same & same_dev);
+        sym::check("C01/token-strings", want.nb_case | same | same_dev);
+    } else {
+        sym::check("C01/token-strings", want.nb_case | same);
+    }
+}
